@@ -276,8 +276,11 @@ def check(ctx):
             for e in rd.r.of_kind("call")
             if e.data.get("name") == "numpy.array" and e.data["args"] and
             e.data["args"][0] is rd.raw)
-        # (handlers of the reader itself; a helper's own try is its business)
-        handlers = [e for e in rd.r.of_kind("except") if e.depth == 0]
+        # (the handlers around the matrix conversion — in the reader or in
+        # the helper it delegates the conversion to; try blocks of other
+        # helpers are their own business)
+        cdepth = rd.conv[0].depth if rd.conv else 0
+        handlers = [e for e in rd.r.of_kind("except") if e.depth == cdepth]
         reraise = all(any(
             x.kind == "raise" and x.idx > h.idx and
             "FileInterfaceException" in (x.data.get("exc_name") or "")
